@@ -29,6 +29,13 @@ def recursionRegistry : List (Nat × String) := [
   (7762940744700125,   "ast_utils.cmp_ast — recurses on child nodes / list elements of finite ASTs"),
   (728761781496678597, "parser_utils.infer — recurses on the single argument after unwrapping one level")]
 
+/-- reviewed other sources of unbounded iteration (infinite iterators, two-argument `iter`, uses of `re`, `for` over a
+    collection grown in its body): each is consumed a bounded number of times.  There is no use of the `re` module in
+    the non-test code, so a regular expression that appears is an unregistered site. -/
+def otherRegistry : List (Nat × String) := [
+  (1094129384413074024, "function/parse.py:function — list(islice(cycle((None,)), diff)): islice takes exactly `diff` items"),
+  (256932361401258789,  "pure_utils.count_iter_items — count() zipped with the (finite) iterable into a zero-length deque, then one next()")]
+
 /-- **Table theorem:** every `while` statement of the current non-test code is a modelled loop. -/
 theorem all_while_registered :
     Gen.Loops.whileLoops.all (fun d => registry.any (fun r => r.1 == d)) = true := by decide
@@ -37,6 +44,9 @@ theorem registry_all_present :
     registry.all (fun r => Gen.Loops.whileLoops.any (fun d => r.1 == d)) = true := by decide
 theorem all_recursive_registered :
     Gen.Loops.recursiveFns.all (fun d => recursionRegistry.any (fun r => r.1 == d)) = true := by decide
+/-- every infinite iterator / regular expression / self-growing `for` of the current non-test code is a reviewed site -/
+theorem all_other_registered :
+    Gen.Loops.otherSites.all (fun d => otherRegistry.any (fun r => r.1 == d)) = true := by decide
 
 /-! ### per-loop termination with a linear bound on header evaluations
 (`run` is total — its definition carries the termination proof `dec` — so "returns" is by construction;
